@@ -68,7 +68,7 @@ def nonce(ctr):
 
 
 class CoapH(explore.Harness):
-    ALPH = ["req", "deliver", "replay-first", "replay-last", "future", "corrupt", "cancel", "timer", "ev", "ev-odd", "ev-replay", "ev-replay-last", "ev-corrupt"]
+    ALPH = ["req", "deliver", "deliver-newest", "replay-first", "replay-last", "future", "corrupt", "cancel", "timer", "ev", "ev-odd", "ev-replay", "ev-replay-last", "ev-corrupt"]
 
     def __init__(self, p):
         from aiohomekit.controller.coap.connection import EncryptionContext, EventResource
@@ -122,6 +122,16 @@ class CoapH(explore.Harness):
         self.acc_ev += 1
         return ct
 
+    def _prepare(self, r, msg):
+        self.prepared = getattr(self, "prepared", {})
+        if id(r) not in self.prepared:
+            if self._open_request(msg) is None:
+                self.prepared[id(r)] = None
+            else:
+                ct = self._seal_response()
+                self.sent.append(ct)
+                self.prepared[id(r)] = ct
+
     def _oldest(self):
         for r, msg in self.ctx.pending:
             if not r.response.done():
@@ -138,6 +148,10 @@ class CoapH(explore.Harness):
                     m.append(a)
             elif a in ("deliver", "future", "corrupt"):
                 if old:
+                    m.append(a)
+            elif a == "deliver-newest":
+                # two requests on the wire at once (only if the session lets two callers through): their answers change places on the way back
+                if len([1 for r, _ in self.ctx.pending if not r.response.done()]) >= 2:
                     m.append(a)
             elif a == "replay-first":
                 if old and self.sent:
@@ -170,6 +184,24 @@ class CoapH(explore.Harness):
         self.n_accepted_before = len(self.log.accepted())
         if label == "req":
             self.tasks.append(self.loop.create_task(self.enc.post(OpCode.CHAR_READ, 9, b"")))
+        elif label == "deliver-newest":
+            # the accessory answers in the order the requests reached it; the datagrams arrive the other way round
+            waiting = [(r, msg) for r, msg in self.ctx.pending if not r.response.done()]
+            for r, msg in waiting:
+                self._prepare(r, msg)
+            r, msg = waiting[-1]
+            ct = self.prepared.pop(id(r))
+            if ct is None:
+                r.response.set_exception(asyncio.TimeoutError())
+            else:
+                r.response.set_result(_Resp(ct))
+        elif label == "deliver" and id(self._oldest()[0]) in getattr(self, "prepared", {}):
+            r, msg = self._oldest()
+            ct = self.prepared.pop(id(r))
+            if ct is None:
+                r.response.set_exception(asyncio.TimeoutError())
+            else:
+                r.response.set_result(_Resp(ct))
         elif label in ("deliver", "future", "corrupt", "replay-first", "replay-last"):
             r, msg = self._oldest()
             # an honest accessory only answers what it could decrypt; an attacker needs nothing
@@ -274,11 +306,11 @@ class CoapH(explore.Harness):
                 old = self._oldest()
                 if old:
                     r, msg = old
-                    if self._open_request(msg) is None:
+                    self._prepare(r, msg)
+                    ct = self.prepared.pop(id(r))
+                    if ct is None:
                         r.response.set_exception(asyncio.TimeoutError())
                     else:
-                        ct = self._seal_response()
-                        self.sent.append(ct)
                         r.response.set_result(_Resp(ct))
                 elif not self.loop.fire_next_timer():
                     break
@@ -290,7 +322,7 @@ class CoapH(explore.Harness):
         from vt import canon as _c
 
         return (_c.canon(e, depth=1, skip=("recv_ctx", "send_ctx", "event_ctx", "coap_ctx", "lock")), e.lock.locked(), e.send_ctr, e.recv_ctr, e.event_ctr, e.coap_ctx is None, self.acc_rx, self.acc_tx, self.acc_ev, tuple((t.done(), t.cancelled()) for t in self.tasks),
-                len([1 for r, _ in self.ctx.pending if not r.response.done()]), len(self.sent), len(self.sent_ev),
+                len([1 for r, _ in self.ctx.pending if not r.response.done()]), len(self.sent), len(self.sent_ev), len(getattr(self, "prepared", ())),
                 tuple(sorted(round(h._when - self.loop.time(), 6) for h in self.loop._scheduled if not h._cancelled)))
 
     def outcome(self):
